@@ -31,6 +31,10 @@
 using namespace verif;
 
 static std::string g_tmp;
+static int g_threads = 4;
+// distinct files may share directory and stem: thread t writes <cls>-<t>.txt and <cls>-<t+1>.bin, so
+// that <cls>-<t>.txt and <cls>-<t>.bin are written by two different threads at the same time
+static int binStem(int tid) { return tid == 0 ? 0 : (tid % g_threads) + 1; }
 
 struct Op {
     std::string name;
@@ -154,7 +158,7 @@ template <class G> std::vector<Op> opsFor(const Obj<G> &sh, const std::string &c
         if constexpr (std::is_same<L, NoLabel>::value || std::is_same<L, int>::value) {
             ops.push_back({"write_files", [&, cls](int tid) {
                                std::string t = g_tmp + "/" + cls + "-" + std::to_string(tid) + ".txt";
-                               std::string b = g_tmp + "/" + cls + "-" + std::to_string(tid) + ".bin";
+                               std::string b = g_tmp + "/" + cls + "-" + std::to_string(binStem(tid)) + ".bin";
                                io::writeTextEdgeList(g, t);
                                io::writeBinaryEdgeList(g, b);
                                std::ifstream ft(t, std::ios::binary), fb(b, std::ios::binary);
@@ -311,7 +315,7 @@ template <class G> std::vector<Op> opsLarge(const Obj<G> &sh, const std::string 
         if constexpr (std::is_same<L, NoLabel>::value || std::is_same<L, int>::value) {
             ops.push_back({"write_files", [&, cls](int tid) {
                                std::string t = g_tmp + "/" + cls + "-L" + std::to_string(tid) + ".txt";
-                               std::string b = g_tmp + "/" + cls + "-L" + std::to_string(tid) + ".bin";
+                               std::string b = g_tmp + "/" + cls + "-L" + std::to_string(binStem(tid)) + ".bin";
                                io::writeTextEdgeList(g, t);
                                io::writeBinaryEdgeList(g, b);
                                std::ifstream ft(t, std::ios::binary), fb(b, std::ios::binary);
@@ -499,6 +503,7 @@ int main(int argc, char **argv) {
         f >> plan;
     }
     g_tmp = plan.at("tmp").get<std::string>();
+    g_threads = plan.value("threads", 4);
     const std::string logDir = plan.at("log_dir").get<std::string>();
     json out = json::array();
     auto run = [&](auto tag, const std::string &cls) {
